@@ -44,7 +44,22 @@ def setup(cx: Cx, ob: Ob):
         for n in _ast.walk(f.node):
             if isinstance(n, _ast.Call) and isinstance(n.func, _ast.Attribute) and n.func.attr in ("casefold", "lower", "upper") and not n.args:
                 kinds.add(n.func.attr)
-    alpha = build_alphabet(ok + [(r"[A-Za-z_][A-Za-z0-9._\-]*", 0)], ":[]/\n", kinds)
+    # every character set the code mentions (module constants that fold to a collection of single characters,
+    # short string literals inside the validators) becomes an atom, so that membership in it is exact
+    char_sets: list[str] = []
+    for name in mod.constants:
+        try:
+            v = cx.model.const_value(mod, name)
+        except Exception:  # noqa: BLE001
+            continue
+        if isinstance(v, (set, frozenset, list, tuple)) and v and all(isinstance(x, str) and len(x) == 1 for x in v):
+            char_sets.append("".join(sorted(v)))
+    for f in mod.functions.values():
+        for n in _ast.walk(f.node):
+            if isinstance(n, _ast.Constant) and isinstance(n.value, str) and 0 < len(n.value) <= 40 and n is not getattr(f.node.body[0], "value", None):
+                char_sets.append(n.value)
+                char_sets.extend(n.value)
+    alpha = build_alphabet(ok + [(r"[A-Za-z_][A-Za-z0-9._\-]*", 0)], ":[]/\n", kinds, char_sets)
     sl = StrLang(cx.model, mod, alpha)
     sl.fold_kinds = kinds
     return mod, sl
